@@ -117,7 +117,28 @@ func (d *Decoder) PopUint() uint32 {
 	return binary.LittleEndian.Uint32(val)
 }
 
+// Remaining returns count of bytes which are not read yet
+func (d *Decoder) Remaining() int {
+	return d.buf.Len()
+}
+
+// checkSize checks, that data has at least size bytes. Sizes are read from the data itself, so we can't
+// trust them and allocate memory for them before this check
+func (d *Decoder) checkSize(size int) bool {
+	if d.err != nil {
+		return false
+	}
+	if size < 0 || size > d.buf.Len() {
+		d.err = fmt.Errorf("data is smaller than it's defining: want %v bytes, have %v", size, d.buf.Len())
+		return false
+	}
+	return true
+}
+
 func (d *Decoder) PopRawBytes(size int) []byte {
+	if !d.checkSize(size) {
+		return nil
+	}
 	val := make([]byte, size)
 	d.read(val)
 	if d.err != nil {
@@ -205,6 +226,12 @@ func (d *Decoder) popVector(as reflect.Type, ignoreCRC bool) any {
 		return nil
 	}
 
+	// each item of vector takes at least one word
+	if uint64(size)*WordLen > uint64(d.buf.Len()) {
+		d.err = fmt.Errorf("vector is bigger than data: %v items, but only %v bytes left", size, d.buf.Len())
+		return nil
+	}
+
 	x := reflect.MakeSlice(reflect.SliceOf(as), int(size), int(size))
 	for i := 0; i < int(size); i++ {
 		var val reflect.Value
@@ -257,6 +284,11 @@ func (d *Decoder) PopMessage() []byte {
 
 		realSize = int(binary.LittleEndian.Uint32(val))
 		lenNumberSize = WordLen
+	}
+
+	if !d.checkSize(realSize) {
+		d.err = errors.Wrapf(d.err, "reading message data with len of %v", realSize)
+		return nil
 	}
 
 	// этот буффер и будет уже реальным собщением
